@@ -64,12 +64,17 @@ async def main(stopcp):
     async with SCase(CASE, ctx, start_opts=opts) as sc:
         assert not sc.rejected, sc.rejected
         sim = sc.sim
+
+        async def cmd(gen):
+            """run a command as Scheduler.process_command_queue does"""
+            await commands.run_cmd(gen)
+            sim.schd.is_updated = True
         await sc.drv.loop()
         for id_ in ('2/a', '3/a'):
-            await commands.run_cmd(
+            await cmd(
                 commands.force_trigger_tasks(sim.schd, [id_], []))
         if stopcp:
-            await commands.run_cmd(
+            await cmd(
                 commands.stop(sim.schd, None, cycle_point='3'))
         await sc.drain()
         return sim.crashed, sim.shutdown_reason, len(sim.journal)
